@@ -330,7 +330,7 @@ def body(chk: check.Check):
     # ------------------------------------------------------------------ (B) + (C)
     all_tables = dbmodel.small_tables()
     hists = generate(chk, f'histories of 2 mutators, full alphabet, {len(all_tables)} tables', dbmodel.gen_pool(all_tables, 'full'), 2,
-                     obs_thin=4 if quick else 3, salt=salt)
+                     obs_thin=5 if quick else 3, salt=salt)
     if quick:
         t3 = dbmodel.small_tables([0])
         hists += generate(chk, f'histories of 3 mutators, reduced alphabet, {len(t3)} tables', dbmodel.gen_pool(t3, 'small'), 3,
